@@ -429,4 +429,88 @@ theorem mem_readStatus_calls (fixed : Bool) (j : Job) (r : Resp) (c : Call)
   split at h <;> simp at h
   exact h
 
+/-! ### an unfinished job keeps asking the server -/
+
+/-- the operations that begin with a status read: everything but `execute_async` -/
+def Op.readsStatus : Op → Bool
+  | .execute _ => false
+  | _ => true
+
+/-- `was_sent and not completed`, spelled out -/
+theorem statusDue_iff (j : Job) :
+    statusDue j = true ↔ j.id.isSome = true ∧ j.status.completed = false := by
+  simp [statusDue]
+
+/-- a due status read sends exactly the status request of this job, whatever the answer -/
+theorem readStatus_calls_due (fixed : Bool) (j : Job) (r : Resp) (hd : statusDue j = true) :
+    (readStatus fixed j r).2.2 = [.status j.id] := by
+  rw [readStatus_calls, hd]; simp
+
+/-- on a sent, unfinished job every operation other than `execute_async` starts with the status request -/
+theorem step_head_status (fixed : Bool) (j : Job) (op : Op) (hd : statusDue j = true)
+    (hop : op.readsStatus = true) :
+    (step fixed j op).2.calls.head? = some (.status j.id) := by
+  cases op with
+  | execute h => simp [Op.readsStatus] at hop
+  | poll v r =>
+    have hc := readStatus_calls_due fixed j r hd
+    simp only [step, poll]
+    generalize readStatus fixed j r = p at hc
+    obtain ⟨j1, e, c⟩ := p
+    simp only at hc
+    subst hc
+    cases e <;> simp
+  | cancel r h =>
+    have hc := readStatus_calls_due fixed j r hd
+    simp only [step, cancel]
+    generalize readStatus fixed j r = p at hc
+    obtain ⟨j1, e, c⟩ := p
+    simp only at hc
+    subst hc
+    cases e with
+    | some e => simp
+    | none =>
+      simp only
+      split
+      · cases h <;> simp
+      · simp
+  | rerun r1 r2 h sw =>
+    have hc := readStatus_calls_due fixed j r1 hd
+    simp only [step, rerun]
+    generalize readStatus fixed j r1 = p at hc
+    obtain ⟨j1, e, c⟩ := p
+    simp only at hc
+    subst hc
+    cases e with
+    | some e => simp
+    | none =>
+      simp only
+      split
+      · cases h <;> simp
+      · generalize readStatus fixed j1 r2 = p2
+        obtain ⟨j2, e2, c2⟩ := p2
+        cases e2 <;> simp
+  | getResults r1 r2 h =>
+    have hc := readStatus_calls_due fixed j r1 hd
+    simp only [step, getResults]
+    generalize readStatus fixed j r1 = p at hc
+    obtain ⟨j1, e, c⟩ := p
+    simp only at hc
+    subst hc
+    cases e with
+    | some e => simp
+    | none =>
+      simp only
+      split
+      · simp
+      · generalize (if j1.cache.isSome then readStatus fixed j1 r2 else (j1, none, [])) = p2
+        obtain ⟨j2, e2, c2⟩ := p2
+        cases e2 with
+        | some e => simp
+        | none =>
+          simp only
+          split
+          · simp
+          · cases h <;> simp
+
 end PM.C17
